@@ -1,6 +1,8 @@
 package rhp
 
 import (
+	"fmt"
+
 	"go.sia.tech/core/types"
 )
 
@@ -230,8 +232,14 @@ func (r *RPCReadResponse) DecodeFrom(d *types.Decoder) {
 	//
 	// NOTE: for maximum efficiency, we should be doing this for every slice,
 	// but in most cases the extra performance isn't worth the aliasing issues.
-	dataLen := int(d.ReadUint64())
-	if cap(r.Data) < dataLen {
+	dataLen := d.ReadUint64()
+	if dataLen > SectorSize {
+		// a response carries the data of one request section, which lies
+		// within a sector
+		d.SetErr(fmt.Errorf("data length (%v) exceeds sector size", dataLen))
+		return
+	}
+	if uint64(cap(r.Data)) < dataLen {
 		r.Data = make([]byte, dataLen)
 	}
 	r.Data = r.Data[:dataLen]
